@@ -1,4 +1,34 @@
+//! `logmon <subcommand> [args..]` — small, std-threads-only workloads of the monitors that are meant
+//! to be executed under Miri (sanitizer layer), e.g.
+//!
+//! `MIRIFLAGS="-Zmiri-disable-isolation -Zmiri-many-seeds=0..8" cargo +nightly miri run --target-dir target-miri --bin logmon -- c25 3 1`
+//!
+//! Subcommands:
+//! * `c25 <histories> <seed>` — C25 log-collection histories (generator + offline checker of `vmon::c25`)
+//!
+//! Exit code: 0 = held, 1 = violation (a line `VIOLATION property=<id> ...` is printed),
+//! 2 = usage / unknown subcommand (never a verdict).
+
+fn usage() -> i32 {
+    eprintln!("usage: logmon <subcommand> [args..]");
+    eprintln!("  c25 <histories> <seed>   log-collection histories with small parameters");
+    2
+}
+
 fn main() {
     vmon::core::install_quiet_panic_hook();
-    println!("logmon: not yet implemented");
+    let args: Vec<String> = std::env::args().collect();
+    let code = match args.get(1).map(|s| s.as_str()) {
+        Some("c25") => vmon::c25::logmon_main(&args[2..]),
+        Some("help") | Some("--help") | Some("-h") => {
+            usage();
+            0
+        }
+        Some(other) => {
+            eprintln!("logmon: unknown subcommand `{other}` (nothing executed)");
+            usage()
+        }
+        None => usage(),
+    };
+    std::process::exit(code);
 }
